@@ -119,6 +119,35 @@ def c08_subroutine_end_name_mismatch():
     return _rejected("subroutine a\nend subroutine b\n")
 
 
+def c08_labelled_do_end_name_mismatch():
+    """D16: a labelled block DO with a construct name accepts an END DO carrying a different name"""
+    return _rejected("program p\na: do 10 i=1,3\nx=1\n10 end do b\nend program p\n")
+
+
+def c08_module_end_name_mismatch():
+    """D5: module m / end module n is not rejected with an error (the process exits)"""
+    return _rejected("module m\nend module n\n")
+
+
+def c08_function_end_name_mismatch():
+    """D5: function f / end function g is not rejected with an error (the process exits)"""
+    return _rejected("function f()\nend function g\n")
+
+
+def c08_submodule_end_name_mismatch():
+    """D5: submodule (a) b / end submodule c is not rejected with an error (the process exits)"""
+    return _rejected("submodule (a) b\nend submodule c\n", "f2008")
+
+
+def c17_procedure_stmt_text_differs():
+    """D15: 'procedure f' in an interface block prints as MODULE PROCEDURE under f2003 and PROCEDURE under f2008"""
+    src = "module m\ninterface g\nprocedure f\nend interface g\nend module m\n"
+    from fparser.common.readfortran import FortranStringReader
+    a = str(_parser("f2003")(FortranStringReader(src)))
+    b = str(_parser("f2008")(FortranStringReader(src)))
+    return a.lower() == b.lower(), dict(f2003=a, f2008=b)
+
+
 def c02_units_dropped_around_anonymous_main():
     """D6: program units before an anonymous main program are dropped from the tree"""
     p = _parser()
